@@ -406,3 +406,134 @@ pub fn perm_case(rng: &mut Rng) -> (Case, PermCase) {
 
 #[allow(dead_code)]
 fn _u(_: Owner, _: Inline) {}
+
+// ---------------------------------------------------------------------------------------------
+// Truncation workloads (C05)
+// ---------------------------------------------------------------------------------------------
+
+pub fn trunc_boundary_value(st: ScalarType, k: u32, rng: &mut Rng) -> u128 {
+    let w = st.size_in_bits() as u32;
+    let m = st_mask(st);
+    let signed = st.is_signed();
+    // admissible range: signed [-M/4, M/4), unsigned [0, M/2)
+    let (lo, hi): (i128, i128) = if signed {
+        if w >= 128 {
+            (-(1i128 << 125), (1i128 << 125) - 1)
+        } else {
+            (-(1i128 << (w - 2)), (1i128 << (w - 2)) - 1)
+        }
+    } else if w >= 128 {
+        (0, i128::MAX >> 1)
+    } else {
+        (0, (1i128 << (w - 1)) - 1)
+    };
+    let p = 1i128 << k.min(120);
+    let cands: Vec<i128> = vec![0, 1, -1, p, -p, p - 1, -p + 1, p + 1, -p - 1, 2 * p, 2 * p - 1, 3 * p + 1, lo, lo + 1, hi, hi - 1, hi / 2, lo / 2];
+    let v = match rng.below(4) {
+        0 | 1 => *rng.pick(&cands),
+        2 => {
+            // multiple of the divisor +- 1
+            let q = (rng.next_u64() as i128) % ((hi / p).max(1));
+            q * p + (rng.below(3) as i128 - 1)
+        }
+        _ => {
+            let span = (hi - lo) as u128 + 1;
+            lo + (rng.next_u128() % span) as i128
+        }
+    };
+    let v = v.clamp(lo, hi);
+    (v as u128) & m
+}
+
+pub fn truncate_case(rng: &mut Rng, idx: usize) -> Case {
+    let ints: Vec<ScalarType> = ALL_ST.iter().cloned().filter(|s| *s != BIT).collect();
+    // the first cases enumerate all admissible 8-bit inputs for every k
+    let exhaustive: Vec<(ScalarType, u32)> = [ciphercore_base::data_types::INT8, ciphercore_base::data_types::UINT8]
+        .iter()
+        .flat_map(|st| (1..=6u32).map(move |k| (*st, k)))
+        .collect();
+    if idx < exhaustive.len() * 2 {
+        let (st, k) = exhaustive[idx % exhaustive.len()];
+        let vals: Vec<u128> = if st.is_signed() { (-64i128..64).map(|x| (x as u128) & 0xff).collect() } else { (0u128..128).collect() };
+        let t = array_type(vec![vals.len() as u64], st);
+        let prog = Prog {
+            graphs: vec![GraphD {
+                steps: vec![
+                    Step { op: Operation::Input(t), deps: vec![], gdeps: vec![] },
+                    Step { op: Operation::Truncate(1u128 << k), deps: vec![0], gdeps: vec![] },
+                ],
+                output: 1,
+                ..Default::default()
+            }],
+        };
+        let owners = vec![*rng.pick(&[Owner::Party(0), Owner::Party(1), Owner::Party(2), Owner::Shared])];
+        return Case { prog, owners, outputs: gen_outputs(rng), inline: gen_inline(rng), inputs: vec![enc(&vals, st)] };
+    }
+    let st = *rng.pick(&ints);
+    let w = st.size_in_bits() as u32;
+    let pow2 = rng.chance(7, 10);
+    let (scale, k) = if pow2 {
+        let k = 1 + rng.below((w - 2) as u64) as u32;
+        (1u128 << k, k)
+    } else {
+        let s = match rng.below(4) {
+            0 => *rng.pick(&[3u128, 5, 6, 7, 10, 100, 1000]),
+            1 => 3 + (rng.next_u128() % 61),
+            _ => {
+                let b = 2 + rng.below((w - 3).max(1) as u64) as u32;
+                ((1u128 << b) | (rng.next_u128() & ((1u128 << b) - 1))) | 1
+            }
+        };
+        let mut s = s.min(st_mask(st) >> 2).max(3);
+        if s.is_power_of_two() {
+            s -= 1; // keep it a genuine non-power-of-two divisor (>= 3)
+        }
+        (s, 0)
+    };
+    debug_assert!(pow2 == scale.is_power_of_two());
+    let shape = crate::gen::pick_shape(8, rng);
+    let t = crate::gen::mk_type(&shape, st);
+    let n: usize = shape.iter().product::<u64>() as usize;
+    let product = rng.chance(3, 10);
+    let mut steps = vec![Step { op: Operation::Input(t.clone()), deps: vec![], gdeps: vec![] }];
+    let mut inputs = vec![];
+    let gen_vals = |rng: &mut Rng, small_bits: Option<u32>| -> Vec<u128> {
+        (0..n.max(1))
+            .map(|_| match small_bits {
+                Some(b) => {
+                    let x = (rng.next_u64() as i128) % (1i128 << b.min(62));
+                    let x = if st.is_signed() && rng.chance(1, 2) { -x } else { x };
+                    (x as u128) & st_mask(st)
+                }
+                None => {
+                    if pow2 {
+                        trunc_boundary_value(st, k, rng)
+                    } else if rng.chance(1, 2) {
+                        // small magnitudes: the exactness claim
+                        let x = (rng.next_u64() as i128) % (1i128 << 15);
+                        ((if rng.chance(1, 2) { -x } else { x }) as u128) & st_mask(st)
+                    } else {
+                        trunc_boundary_value(st, 1, rng)
+                    }
+                }
+            })
+            .collect()
+    };
+    let out;
+    if product {
+        steps.push(Step { op: Operation::Input(t.clone()), deps: vec![], gdeps: vec![] });
+        steps.push(Step { op: Operation::Multiply, deps: vec![0, 1], gdeps: vec![] });
+        steps.push(Step { op: Operation::Truncate(scale), deps: vec![2], gdeps: vec![] });
+        out = 3;
+        let half = ((w - 2) / 2).max(1).min(30);
+        inputs.push(enc(&gen_vals(rng, Some(half)), st));
+        inputs.push(enc(&gen_vals(rng, Some((w - 2 - half).max(1).min(30).saturating_sub(1).max(1))), st));
+    } else {
+        steps.push(Step { op: Operation::Truncate(scale), deps: vec![0], gdeps: vec![] });
+        out = 1;
+        inputs.push(enc(&gen_vals(rng, None), st));
+    }
+    let prog = Prog { graphs: vec![GraphD { steps, output: out, ..Default::default() }] };
+    let owners = if rng.chance(1, 12) { vec![Owner::Public; inputs.len()] } else { gen_owners(inputs.len(), rng) };
+    Case { prog, owners, outputs: gen_outputs(rng), inline: gen_inline(rng), inputs }
+}
